@@ -30,6 +30,7 @@ func peerMain(args []string) int {
 	var l *lite.DB
 	var h *sqlittle.DB
 	var held *sdb.Database
+	var raw *os.File
 	var env *Env
 	var eaten []int
 	var savedLimit syscall.Rlimit
@@ -157,6 +158,36 @@ func peerMain(args []string) int {
 				held.RUnlock()
 				held.Close()
 				held = nil
+			}
+			reply("ok")
+		// a bare fcntl write lock on SQLite's shared byte range WITHOUT the pending byte: what SQLite >= 3.41 holds while
+		// it rolls a hot journal back, and what any other program using the locking protocol loosely may hold
+		case "rawlock":
+			if raw != nil {
+				raw.Close()
+				raw = nil
+			}
+			f, err := os.OpenFile(arg, os.O_RDWR, 0)
+			if err != nil {
+				reply("err %v", err)
+				continue
+			}
+			lk := syscall.Flock_t{Type: syscall.F_WRLCK, Whence: 0, Start: 0x40000002, Len: 510}
+			if err := syscall.FcntlFlock(f.Fd(), syscall.F_SETLK, &lk); err != nil {
+				f.Close()
+				if err == syscall.EAGAIN || err == syscall.EACCES {
+					reply("busy")
+				} else {
+					reply("err %v", err)
+				}
+				continue
+			}
+			raw = f
+			reply("ok")
+		case "rawunlock":
+			if raw != nil {
+				raw.Close()
+				raw = nil
 			}
 			reply("ok")
 		// the working directory of this process (a handle opened by a relative name must not care)
